@@ -385,7 +385,7 @@ def mk_case(cid, gid, text, as_list, smart=True, keepends=False, note=""):
 
 
 def gen_cases(rng, tier):
-    n = 6000 if tier == "thorough" else 620
+    n = 14000 if tier == "thorough" else 1500
     cases = []
     cids = sorted(CONFIGS)
     # fixed probes (every configuration)
